@@ -72,7 +72,7 @@ def main(pid, tier, replay=None):
             json.dump(dict(seed=seed, explicit=[chunks]), f)
     with open(job, "w") as f:
         json.dump(dict(seed=seed, exhaustive=dict(maxlen=6 if thorough else 4, maxfeeds=3),
-                       random=dict(n=3000 if thorough else 400, maxlen=200)), f)
+                       random=dict(n=30000 if thorough else 400, maxlen=200)), f)
     core.run_vh(["nlc", job, trace])
     cases = split(trace)
     res.notes["cases"] = len(cases)
@@ -90,7 +90,7 @@ def main(pid, tier, replay=None):
     res.notes["binding_selftest"] = st
     if st and not st["rejected"]:
         raise core.ToolError("binding self-test failed")
-    n = 10 if thorough else 6
+    n = 14 if thorough else 6
     parts = [cases[i::n] for i in range(n)]
     with concurrent.futures.ThreadPoolExecutor(max_workers=n) as ex:
         results = list(ex.map(lambda a: validate(res, a[0], a[1]), enumerate(parts)))
